@@ -505,12 +505,12 @@ def _run_property(pid, tier, seed, logdir):
                 (L(("a", 1)), [(0, L(("a", 1)), ("afsdb", L(("h", 1), ("z", 1)))), (2, L(("h", 1), ("z", 1)), 4), (0, L(("a", 1)), ("mx", L(("h", 1), ("z", 1))))], False, False),
                 (L(("a", 1)), [(1, L(("a", 1)), ("soa", L(("m", 1), ("a", 1)), L(("r", 1), ("m", 1), ("a", 1)))), (2, L(("r", 1), ("m", 1), ("a", 1)), 1)], True, False),
             ]
+            layouts.append((L(("a", 1)), [(0, L(("a", 1)), ("rp", L(("x", 1), ("a", 1)), L(("y", 1), ("x", 1), ("a", 1)))), (0, L(("y", 1), ("x", 1), ("a", 1)), ("ptr", L(("x", 1), ("a", 1))))], False, False))
             # names first written beyond 0x2000 (14-bit pointer offsets that need the upper bits)
             layouts.append((L(("a", 1)), [(0, L(), 8200), (0, L(("n", 1), ("m", 1)), 1), (0, L(("n", 1), ("m", 1)), 1), (0, L(("k", 1), ("m", 1)), 1)], False, False))
             if tier == "thorough":
                 layouts += [
                     (L(("a", 1)), [(0, L(), 12400), (0, L(("n", 1), ("m", 1)), ("cname", L(("c", 1), ("m", 1)))), (0, L(("c", 1), ("m", 1)), 1)], False, False),
-                    (L(("a", 1)), [(0, L(("a", 1)), ("rp", L(("x", 1), ("a", 1)), L(("y", 1), ("x", 1), ("a", 1)))), (0, L(("y", 1), ("x", 1), ("a", 1)), ("ptr", L(("x", 1), ("a", 1))))], False, False),
                     (L(("a", 1)), [(0, L(("a", 1)), ("rt", L(("h", 1), ("z", 1)))), (2, L(("h", 1), ("z", 1)), 4)], True, True),
                 ]
             # a chain of names each extending the previous one by a label: the encoder emits one pointer hop per level
